@@ -9,7 +9,7 @@ use crate::{PropRun, Tier};
 use serde_json::{json, Value};
 use std::time::Duration;
 
-pub const RULE: &str = "scripts of 0..25 lines over the real binary's stdin: uci / isready / ucinewgame / valid position commands / cheap go commands (depth 1..2 on pre-screened positions, movetime <= 20) / unknown lines (first token not a command, no command word as a later token; ASCII, UTF-8, lines containing bytes that are not valid UTF-8, and very long lines up to 70 000 characters) / blank lines, interleaved; ending in quit (possibly with further lines after it) or in end of input (with or without a final newline; stdin closed immediately or after the transcript is complete). Oracle: stdout must parse, with nothing left over and nothing missing, against the slot sequence derived line by line (uci -> 'id ' lines [+ 'option ' lines] then 'uciok'; isready -> 'readyok'; go -> info* then exactly one bestmove; everything else -> nothing; nothing after quit), and the process must exit with status 0 after quit and after end of input (5 s allowance on an idle process; still-alive is corroborated by CPU time still increasing). Non-trivial = >=1 unknown or blank line between two answered commands, or ends by EOF; distinct by script text.";
+pub const RULE: &str = "scripts of 0..25 lines (one in twenty-five: 260..760 lines, mostly cheap ones) over the real binary's stdin: uci / isready / ucinewgame / valid position commands / cheap go commands (depth 1..2 on pre-screened positions, movetime <= 20) / unknown lines (first token not a command, no command word as a later token; ASCII, UTF-8, lines containing bytes that are not valid UTF-8, and very long lines up to 70 000 characters) / blank lines, interleaved; ending in quit (possibly with further lines after it) or in end of input (with or without a final newline; stdin closed immediately or after the transcript is complete). Oracle: stdout must parse, with nothing left over and nothing missing, against the slot sequence derived line by line (uci -> 'id ' lines [+ 'option ' lines] then 'uciok'; isready -> 'readyok'; go -> info* then exactly one bestmove; everything else -> nothing; nothing after quit), and the process must exit with status 0 after quit and after end of input (5 s allowance on an idle process; still-alive is corroborated by CPU time still increasing). Non-trivial = >=1 unknown or blank line between two answered commands, or ends by EOF; distinct by script text.";
 
 #[derive(Debug, Clone, PartialEq)]
 enum Slot {
@@ -27,11 +27,15 @@ struct Script {
 }
 
 fn gen_script(s: &mut Src) -> Script {
-    let n = s.below(26);
+    // one script in twenty-five is LONG (260..760 lines, mostly cheap ones): whatever counts lines or
+    // commands in a small integer gets to its limit
+    let long = s.chance(4);
+    let n = if long { 260 + s.below(500) } else { s.below(26) };
+    let weights: [usize; 7] = if long { [10, 30, 3, 2, 1, 34, 20] } else { [12, 22, 6, 14, 14, 20, 12] };
     let mut lines: Vec<Line> = Vec::new();
     let mut have_pos: Option<bool> = None; // Some(cheap) once a position was set
     for _ in 0..n {
-        let l = match s.weighted(&[12, 22, 6, 14, 14, 20, 12]) {
+        let l = match s.weighted(&weights) {
             0 => Line::Uci,
             1 => Line::IsReady,
             2 => {
@@ -312,6 +316,9 @@ fn judge(sc: &Script, text_lines: &[String], stats: &mut Stats) -> Verdict {
     }
     if has_raw {
         stats.class("scripts_with_a_line_that_is_not_valid_UTF-8");
+    }
+    if text_lines.len() >= 256 {
+        stats.class("scripts_of_256_or_more_lines");
     }
     if text_lines.iter().any(|l| l.len() >= 4_000) {
         stats.class("scripts_with_a_line_of_4000_or_more_characters");
